@@ -28,7 +28,9 @@ def visible(spec, t0):
     return out
 
 
-def gen(rng, names, tier, falsy_p=0.35, depth_choices=(1, 1, 1, 2, 2, 3), clocks=("test", "test", "historical", "vts")):
+def gen(rng, names, tier, falsy_p=0.35, depth_choices=(1, 1, 1, 2, 2, 3), clocks=("test", "test", "historical", "vts"), feedback_p=0.0):
+    if feedback_p and rng.random() < feedback_p:
+        return gen_feedback(rng, names, falsy_p)
     ctx = catalog.Ctx(rng, hot_p=0.5, falsy_p=falsy_p, sync_p=0.1)
     src = ctx.new_source(maxn=7 if tier == "thorough" else 6)
     chain = []
@@ -46,7 +48,90 @@ def gen(rng, names, tier, falsy_p=0.35, depth_choices=(1, 1, 1, 2, 2, 3), clocks
     return sc
 
 
+FEEDBACK_OPS = ("map", "map_none", "map_indexed", "filter", "filter_indexed", "take", "skip", "take_while", "take_while_indexed", "skip_while",
+                "skip_while_indexed", "distinct", "distinct_until_changed", "pairwise", "starmap", "pluck", "element_at", "as_observable")
+
+
+def gen_feedback(rng, names, falsy_p=0.35):
+    """A subscriber that feeds the source: it pushes the next value into the Subject it is (indirectly) subscribed to from inside
+    every on_next it receives.  Each value is handed over while the previous one is still being delivered, which is legal and is
+    what a recursive pipeline does; the operators in between must have settled their own state before they call downstream."""
+    ctx = catalog.Ctx(rng, hot_p=0.0, falsy_p=falsy_p, sync_p=0.0)
+    ok = [n for n in names if n in FEEDBACK_OPS]
+    chain = []
+    for _ in range(rng.choice([1, 1, 2])):
+        name = rng.choice(ok)
+        chain.append({"op": name, "id": ctx.next_id(), "a": catalog.ROWS[name].gen(ctx)})
+    vals = [vt.gen_value(rng, falsy_p) for _ in range(rng.randrange(1, 8))]
+    if rng.random() < 0.6:
+        vals = list(range(len(vals)))
+    return {"clock": rng.choice(["test", "vts"]), "sources": [], "chain": chain, "feedback": vals, "sub_t": 205, "horizon": 600}
+
+
+def execute_feedback(sc, MODELS):
+    from reactivex.subject import Subject
+    out = Outcome()
+    w = vt.World(sc["clock"])
+    src = Subject()
+    obs = src
+    for node in sc["chain"]:
+        obs = catalog.ROWS[node["op"]].build(w, node["id"], node["a"], [obs])
+    vals = [vt.dec(v) for v in sc["feedback"]]
+    rec = vt.Recorder(w, "r", follow=False)
+    sent = [0]
+
+    def feed(_v=None):
+        if sent[0] < len(vals):
+            sent[0] += 1
+            src.on_next(vals[sent[0] - 1])
+
+    rec.on_each = feed
+    t0, T = sc["sub_t"], sc["sub_t"] + 10
+    w.at(t0, lambda: rec.subscribe(obs))
+    w.at(T, feed)
+    w.at(T + 10, src.on_completed)
+    w.run(sc["horizon"])
+
+    def model(k, done):
+        evs = [(float(T), "N", v) for v in vals[:k]] + ([(float(T + 10), "C", None)] if done else [])
+        for node in sc["chain"]:
+            evs = MODELS[node["op"]](node["a"], evs, t0)
+        return evs
+
+    out.digest = ("feedback", tuple(n["op"] for n in sc["chain"]), rec.kinds(), len(vals))
+    out.sim_time = sc["horizon"]
+    out.probes["feedback_mode"] += 1
+    g = vt.grammar_violation(rec)
+    if g:
+        out.bad("grammar", g)
+    if w.escaped:
+        out.bad("escaped", repr(w.escaped[0][2:]))
+    try:
+        k = 1 if vals else 0
+        for _ in range(len(vals) + 2):
+            # every element that reaches the subscriber makes it hand over one more value (while any are left)
+            k2 = min(len(vals), 1 + sum(1 for e in model(k, False) if e[1] == "N")) if vals else 0
+            if k2 == k:
+                break
+            k = k2
+        want = models.norm(model(k, True))
+    except (models.Tie,) + _BENIGN:
+        out.probes["ill_typed_skipped"] += 1
+        return out
+    got = models.norm(rec.events_kv())
+    out.nontrivial = len(got) >= 2
+    if sent[0] != k:
+        out.bad("model-mismatch", "feedback chain=%s values=%s: the subscriber handed over %d values, the list model says %d (received %s)" % (
+            [(n["op"], n["a"]) for n in sc["chain"]], sc["feedback"], sent[0], k, got))
+    elif not _same(want, got, False):
+        out.bad("model-mismatch", "feedback chain=%s values=%s expected=%s got=%s" % ([(n["op"], n["a"]) for n in sc["chain"]], sc["feedback"], want, got))
+    out.info = {"got": [list(map(_j, g_)) for g_ in got][:8]}
+    return out
+
+
 def execute(sc, MODELS, compare_times=True):
+    if "feedback" in sc:
+        return execute_feedback(sc, MODELS)
     out = Outcome()
     w = vt.World(sc["clock"])
     vt.make_sources(w, sc["sources"])
